@@ -327,6 +327,9 @@ func (nz *normalizer) candidate(fn *types.Func) (res *helper) {
 	if _, known := frozenParams[fn.FullName()]; known {
 		return nil
 	}
+	if _, renamed := nz.p.renamed[fn.FullName()]; renamed {
+		return nil // an anchored function under a new name, not a new helper
+	}
 	f := nz.p.FuncOf(fn)
 	if f == nil || f.Decl == nil || f.Body == nil {
 		return nil
